@@ -85,6 +85,9 @@ class EditHooks(SysHooks):
                 if isinstance(a, ast.AugAssign) and isinstance(a.target, ast.Name) and isinstance(a.op, ast.Add) and isinstance(a.value, ast.List) \
                         and isinstance(s0.env.get(a.target.id), ListV):
                     s0.env[a.target.id] = Sym(("prefix", a.target.id, vkey(s0.env[a.target.id])))
+                if isinstance(a, ast.Call) and isinstance(a.func, ast.Attribute) and a.func.attr == "append" and isinstance(a.func.value, ast.Name) \
+                        and isinstance(s0.env.get(a.func.value.id), ListV):
+                    s0.env[a.func.value.id] = Sym(("prefix", a.func.value.id, vkey(s0.env[a.func.value.id])))
             sm.assign(node.target, elem, s0, node.lineno)
             outs = []
             for s2, status in sm.block(node.body, s0):
